@@ -931,6 +931,10 @@ func (s *Session) genReplayTest(u *Unit, o *Obligation, mv map[string]string) (s
 					if !(ok2 && ok3 && ok4) || p < 0 || l < 0 || cp < l || p+cp > 4096 {
 						return "", "", fmt.Errorf("inner slice of %s not constructible", pn)
 					}
+					// the values actually used (defaults included) are what the assertion checker sees
+					mv[fmt.Sprintf("%s[%d].ptr", pn, c)] = fmt.Sprint(p)
+					mv[fmt.Sprintf("%s[%d].len", pn, c)] = fmt.Sprint(l)
+					mv[fmt.Sprintf("%s[%d].cap", pn, c)] = fmt.Sprint(cp)
 					noteMem(in.Elem(), pn+".brk", p+cp)
 					if cp == 0 {
 						continue // nil inner slice
